@@ -96,12 +96,16 @@ SStart(p, e, op, arg) ==
 \* was a refusal due?  (evaluated when the call ends)
 SBusyDue(p, o) ==
   \/ o.must
-  \/ \E h \in SOps(p, o.s, o.op) : h.t \in o.hold /\ h.t # o.t
+  \/ o.hold # {}          \* (a holder that ends is taken out of the hold sets, see SDrop)
 SBusyAllowed(p, o) == \E h \in p.ops : h.s = o.s /\ h.op = o.op /\ h.t # o.t
+
+\* the call o has ended: forget it, also as a holder the other calls of its kind were measured against
+SDrop(p, o) ==
+  [p EXCEPT !.ops = {IF x.s = o.s /\ x.op = o.op THEN [x EXCEPT !.hold = @ \ {o.t}] ELSE x : x \in (@ \ {o})}]
 
 SSendEnd(p, e) ==
   LET o == SFind(p, e.s, "send", e.t)
-      p1 == [p EXCEPT !.ops = @ \ {o}]
+      p1 == SDrop(p, o)
       peerGone == p.closed[SPeer(e.s)] \/ p.rst
       common == [BusyResource |-> SBusyDue(p, o) => e.res \in {"busy", "cancelled"},
                  ClosedSendRaises |-> o.closed0 => e.res \in {"closed", "busy", "cancelled", "timeout"}]
@@ -144,7 +148,7 @@ SSendEnd(p, e) ==
 SRecvEnd(p, e) ==
   LET o == SFind(p, e.s, "recv", e.t)
       w == SPeer(e.s)                      \* the writer of the stream being read
-      p1 == [p EXCEPT !.ops = @ \ {o}]
+      p1 == SDrop(p, o)
       common == [BusyResource |-> SBusyDue(p, o) => e.res \in {"busy", "cancelled"},
                  ClosedReceiveRules |-> o.closed0 => e.res \in {"ok", "closed", "busy", "cancelled", "timeout"}]
   IN
